@@ -349,6 +349,7 @@ Definition delta_of (rd : rdelta) (st : nstate) : delta :=
 Record rstep := {
   r_factor : nat;
   r_delta : rdelta;
+  r_barrier : bool;               (* remember the current state as the base of later stale approximations *)
   r_stale : bool;                 (* use the approximation computed at the last barrier (parallel optimiser) *)
   r_new : list (var * (Q * Q));   (* the optimiser's new model distribution, (mean, sigma) *)
   r_obs_cavity : obs_mf;          (* factor_approximation(f).cavity_dist *)
@@ -361,7 +362,8 @@ Record rstep := {
 
 (* replay of one step; [base] is the state at the last barrier (for stale approximations) *)
 Definition raw_step (acc : nstate * nstate * bool) (s : rstep) : nstate * nstate * bool :=
-  let '(st, base, ok) := acc in
+  let '(st, base0, ok) := acc in
+  let base := if r_barrier s then st else base0 in
   let src := if r_stale s then base else st in
   let i := r_factor s in
   let new := in_mf (r_new s) in
@@ -377,7 +379,7 @@ Definition raw_step (acc : nstate * nstate * bool) (s : rstep) : nstate * nstate
     && mf_close tol (n_global st') (r_obs_global s)
     && Bool.eqb (n_all_valid dl cavd last new) (r_obs_success s)
     && Bool.eqb (n_updated_flag dl cavd last new) (r_obs_updated s) in
-  (st', (if r_stale s then base else st'), ok && good).
+  (st', base, ok && good).
 
 Definition ofit := outcome N2.
 Record obs_entry := {
